@@ -17,10 +17,14 @@ def c10SpecLabel (ds : Array Nat) (outs : List Nat) (i : Nat) : Int :=
 def c10SpecMap (ds : Array Nat) (outs : List Nat) : Array Int :=
   ((List.range ds.size).map (c10SpecLabel ds outs)).toArray
 
-/-- brute-force per-outlet sum of `w` over the cells carrying the outlet's label -/
+/-- brute-force per-outlet value: the sum of `w` over the cells carrying the outlet's label; an entry
+whose pixel is listed again later is shadowed (nothing carries its label) and reports the pixel's own
+weight; `-9999` for a missing outlet -/
 def c10SpecAcc (n : Nat) (outs : List Nat) (lab : Array Int) (w : Nat → Int) : Array Int :=
   (outs.zipIdx.map fun (o, k) =>
-    if o = n then (-9999 : Int) else sumIf (List.range n) (fun i => lab[i]! == (k : Int) + 1) w).toArray
+    if o = n then (-9999 : Int)
+    else if (outs.drop (k + 1)).contains o then w o
+    else sumIf (List.range n) (fun i => lab[i]! == (k : Int) + 1) w).toArray
 
 def flagVals {α : Type} (l : PerOutlet α) (f : α → Int) : Array Int :=
   (l.map fun x => match x with | some v => f v | none => 0).toArray
